@@ -5,3 +5,5 @@ import AmVerif.Props.C02
 import AmVerif.Props.C01
 import AmVerif.Props.C16
 import AmVerif.Props.C12
+import AmVerif.Props.C04
+import AmVerif.Props.C11
